@@ -59,6 +59,32 @@ def gen(rng, tier):
             meta[cid] = (name, "")
     return lines, meta
 
+_sdrv = []
+def is_d3(line, r, go_bin):
+    """the listed finding D3 is the mode-0 behaviour that the specification models (the supplied bytes are run through an
+    overlay at PC): a failing mode-0 injection experiment is THAT finding only if the real code, with the request raised at the
+    reported boundary, still agrees with the extracted specification over the whole run; anything else is a new violation."""
+    try:
+        k = int([x for x in r if x.startswith("k=")][0][2:])
+    except Exception:
+        return False
+    t = line.split()
+    # inject line = "inject" + step-line fields + kind nd data... maxsteps
+    maxsteps = t[-1]
+    # find nd: the data bytes sit between 'kind nd' and maxsteps; kind is 0/1, try the possible lengths
+    for ndv in (1, 3, 2, 0, 4):
+        if len(t) > ndv + 3 and t[-2 - ndv] == str(ndv) and t[-3 - ndv] in ("0", "1"):
+            kind, data = int(t[-3 - ndv]), [int(x) for x in t[-1 - ndv:-1]]
+            base = "step " + " ".join(t[1:-3 - ndv])
+            break
+    else:
+        return False
+    if not _sdrv:
+        _sdrv.append(pipeline.build_spec_driver())
+    l2 = cases.set_steps(cases.with_irq(base, kind, data, at=k), 400)
+    mism, _ = pipeline.compare([l2], go_bin, _sdrv[0], spec_masks=True)
+    return not mism
+
 def run(tier, seed):
     t0 = time.time()
     rng = common.Rng(seed)
@@ -75,7 +101,7 @@ def run(tier, seed):
             points += int(r[1])
             continue
         name = meta[i][0]
-        if name.startswith("im0") and "D3" in findings and r[0] == "fail":
+        if name.startswith("im0") and "D3" in findings and r[0] == "fail" and is_d3(l, r, go_bin):
             known_hit["D3"] = known_hit.get("D3", 0) + 1
             continue
         bad.append((i, l, [("injection experiment (%s)" % name, " ".join(r)[:300], "same final registers/flags/IFF/memory as the uninterrupted run")]))
